@@ -191,6 +191,8 @@ class Ctx:
             return v.__index__()
         if isinstance(v, SBool):
             return bool(v)
+        if isinstance(v, SSeq):
+            return seq.realise_seq(v)
         return v
 
 
